@@ -82,6 +82,15 @@ def cases(ctx):
         b = [rng.random() + 0.01 if i % 2 == 1 else 0.0 for i in range(N)]
         sa, sb = math.fsum(a), math.fsum(b)
         out.append((n, [x / sa for x in a], [x / sb for x in b], "disjoint"))
+    # a large register (2^17 outcomes): point masses at both ends (disjoint), and vectors that differ only on the upper half
+    n = 17
+    N = 2 ** n
+    a = [0.0] * N; a[0] = 1.0
+    b = [0.0] * N; b[N - 1] = 1.0
+    out.append((n, a, b, "disjoint"))
+    u = [1.0 / N] * N
+    v = list(u); v[N - 1] = 0.0; v[N - 2] = 2.0 / N
+    out.append((n, u, v, "dense/dense"))
     return out
 
 
@@ -102,6 +111,20 @@ def oracle(n, p, q, r, kind, rng=None):
         return "an input vector was modified by the call"
     if impl(p, p, n) != 0.0:
         return f"H(p,p) on one and the same object is {impl(p, p, n)!r}, not 0"
+    # both vectors as plain Python lists (equal-length lists of floats)
+    hl = impl(list(pl), list(ql), n)
+    bc0 = math.fsum(math.sqrt(a * b) for a, b in zip(pl, ql))
+    if not abs(hl * hl - (1.0 - bc0)) <= 1e-12:
+        return f"with both vectors given as lists H^2={hl*hl!r}, 1-sum sqrt(p q)={1.0-bc0!r}"
+    # the same array OBJECT as second argument again, with new contents written into it in place
+    if rl is not None and isinstance(q, np.ndarray) and q.dtype.kind == "f":
+        q[:] = rl
+        h3 = impl(p, q, n)
+        bc3 = math.fsum(math.sqrt(a * b) for a, b in zip(pl, rl))
+        q[:] = ql
+        if not abs(h3 * h3 - (1.0 - bc3)) <= 1e-12:
+            return (f"after the second argument's array was refilled in place with another vector, H^2={h3*h3!r}, "
+                    f"1-sum sqrt(p q)={1.0-bc3!r} (the call still uses the earlier contents)")
     h2 = impl(p, q, n)                              # once more on the same objects
     bc = math.fsum(math.sqrt(a * b) for a, b in zip(pl, ql))
     if not abs(h2 * h2 - (1.0 - bc)) <= 1e-12:
